@@ -37,6 +37,9 @@ def is_parse(t):
         return True
     if t[0] == "inl" and t[1] == "ural.utils.safe_urlsplit":
         return True
+    if t[0] == "phi":
+        # `url if isinstance(url, SplitResult) else urlsplit(...)`
+        return is_parse(t[2]) or is_parse(t[3])
     return False
 
 
